@@ -194,9 +194,9 @@ Theorem C17_wild_saturates : forall s, min_i64 <= lo_ns s <= max_i64 /\ min_i64 
 Proof. exact lo_hi_range. Qed.
 Print Assumptions C17_wild_saturates.
 
-Theorem C17_ntimed_raw_wide : forall s, lo_ns s + hi_ns s < 2^64 - 2^14 ->
+Theorem C17_ntimed_raw_wide : forall s, in_corner s = false ->
   Z.abs (raw_f s - wide_offset s) <= raw_tol s.
-Proof. exact raw_f_wide_Z. Qed.
+Proof. intros s H. apply raw_f_wide_Z. apply Z.leb_gt. exact H. Qed.
 Print Assumptions C17_ntimed_raw_wide.
 
 (* below 2^62 the two references coincide *)
@@ -204,11 +204,11 @@ Theorem C17_raw_offset_is_wide : forall s, Z.abs (lo_ns s) < 2^62 -> Z.abs (hi_n
 Proof. exact raw_offset_exact. Qed.
 Print Assumptions C17_raw_offset_is_wide.
 
-(* The corner lo + hi >= 2^64 - 2^14 (both one-way differences within 8 us of +292 years): still close, or
+(* The corner in_corner s: lo + hi >= 2^64 - 2^14 (both one-way differences within 8 us of +292 years): still close, or
    mid * 1e9 rounded to 2^63, int64() of it is -2^63 and Inv returns MaxInt64 (wrong sign: the offset is -2^63). *)
-Theorem C17_ntimed_raw_corner : forall s, 2^64 - 2^14 <= lo_ns s + hi_ns s ->
+Theorem C17_ntimed_raw_corner : forall s, in_corner s = true ->
   Z.abs (raw_f s - wide_offset s) <= raw_tol s \/ raw_f s = max_i64.
-Proof. exact raw_f_corner. Qed.
+Proof. intros s H. apply raw_f_corner. apply Z.leb_le. exact H. Qed.
 Print Assumptions C17_ntimed_raw_corner.
 
 (* the corner exists: both differences saturated; the Ntimed filter says +292 years, ntp.ClockOffset wraps to 0 *)
@@ -217,9 +217,21 @@ Example C17_ntimed_corner_example :
   lo_ns s = max_i64 /\ hi_ns s = max_i64 /\ raw_f s = max_i64 /\ wide_offset s = - max_i64 /\ raw_offset s = 0.
 Proof. vm_compute. repeat split; reflexivity. Qed.
 
-(* the closeness clause of the property oracle, on every sample: against ntp.ClockOffset below 2^62 ns, against
-   wide_offset beyond, MaxInt64 tolerated in the corner *)
-Theorem C17_ntimed_raw_close_oracle : forall s, raw_close s (raw_f s) = true.
+(* FINDING (ntimed-corner-wrong-sign; KNOWN_FINDINGS.txt, case kind ntimed.corner): the clause "correct sign" of
+   the property is refuted in the corner.  The sample below (any timestamps are within the property's quantifier)
+   has an offset of -(2^63 - 1) ns; the filter's very first output on it is +(2^63 - 1) ns. *)
+Theorem C17_ntimed_sign_refuted : exists s,
+  wide_offset s < - raw_tol s /\ 0 < raw_f s /\ raw_close s (raw_f s) = false /\
+  nt_run (nt_zero 0) [NDo 0 s] = [raw_f s].
+Proof.
+  exists {| sm_ctx := 2^63 + 5; sm_srx := 0; sm_stx := 0; sm_crx := 2^63 + 5 |}.
+  vm_compute. repeat split; reflexivity.
+Qed.
+Print Assumptions C17_ntimed_sign_refuted.
+
+(* the closeness clause of the property oracle, on every sample outside that corner: against ntp.ClockOffset
+   below 2^62 ns, against wide_offset beyond *)
+Theorem C17_ntimed_raw_close_oracle : forall s, in_corner s = false -> raw_close s (raw_f s) = true.
 Proof. exact raw_f_close. Qed.
 Print Assumptions C17_ntimed_raw_close_oracle.
 
@@ -232,15 +244,27 @@ Theorem C17_ntimed_oracle_conditional : forall ops,
 Proof. exact ntimed_model_meets_oracle. Qed.
 Print Assumptions C17_ntimed_oracle_conditional.
 
-(* Oracle on the model: for ALL histories of Do/Reset with arbitrary epochs and arbitrary timestamps, the
-   model's outputs are accepted by the property oracle (raw offset within float rounding and of the right sign
-   on the first three samples after a reset point and on samples within the learned bounds; reset points where
-   the history puts them; outputs equal to those of new filters started at every reset point).  No hypothesis. *)
+(* Oracle on the model: for ALL histories of Do/Reset with arbitrary epochs and arbitrary timestamps none of whose
+   samples lies in the corner lo + hi >= 2^64 - 2^14, the model's outputs are accepted by the property oracle (raw
+   offset within float rounding and of the right sign on the first three samples after a reset point and on samples
+   within the learned bounds; reset points where the history puts them; outputs equal to those of new filters
+   started at every reset point).  Full statement (without the corner hypothesis): refuted, see below. *)
 Theorem C17_ntimed_oracle : forall ops,
+  (forall s, In s (do_samples ops) -> in_corner s = false) ->
   let tr := nt_trace (nt_zero 0) ops in
   C17_ntimed_ok ops (within_of tr) (map ni_out tr) (reset_points 0 0 ops) (nt_run_restarting (nt_zero 0) ops) = true.
 Proof. exact ntimed_model_meets_oracle_all. Qed.
 Print Assumptions C17_ntimed_oracle.
+
+(* ... and a one-sample history in the corner on which the oracle rejects the model's (= the filter's) output *)
+Theorem C17_ntimed_oracle_refuted : exists ops,
+  let tr := nt_trace (nt_zero 0) ops in
+  C17_ntimed_ok ops (within_of tr) (map ni_out tr) (reset_points 0 0 ops) (nt_run_restarting (nt_zero 0) ops) = false.
+Proof.
+  exists [NDo 0 {| sm_ctx := 2^63 + 5; sm_srx := 0; sm_stx := 0; sm_crx := 2^63 + 5 |}].
+  vm_compute. reflexivity.
+Qed.
+Print Assumptions C17_ntimed_oracle_refuted.
 
 (* the reset clause of the oracle holds unconditionally *)
 Theorem C17_ntimed_oracle_reset : forall ops,
